@@ -6,6 +6,11 @@
 // strings) with concrete keys: first-level, second-level, three-way and mixed collisions are all covered.
 // (Keys with symbolic characters make the shape of the red-black tree symbolic; CBMC then needs > 10 min for
 // two remaps.  Concrete keys per pattern keep every pointer concrete.)
+// The names that are EMITTED (wrapper symbol, unique name) are formed from _hash right after each remap's own call and
+// never recomputed, so the harness snapshots _hash after every insertion and requires the snapshots - not only the final
+// _hash values - to be pairwise distinct (a first remap whose _hash is extended later keeps its short name: the
+// nullptr placeholder under the short key is what reserves it against a third collision).  Every insertion order of the
+// signatures is run (one catalogue entry per order), so every relative order of keys and insertions occurs.
 #include "verif.h"
 #include "interfaceMaker.h"
 #include "interrogateBuilder.h"
@@ -85,7 +90,38 @@ static void __attribute__((noinline)) make_patterns() {
   }
 }
 
-static void __attribute__((noinline)) scenario(int p1, int p2) {
+// insertion orders: every permutation of the signatures (3 remaps); the identity only for other KMAX
+#if KMAX == 3
+#define NORDER 6
+static const unsigned char ORDER[NORDER][KMAX] = {{0, 1, 2}, {0, 2, 1}, {1, 0, 2}, {1, 2, 0}, {2, 0, 1}, {2, 1, 0}};
+#else
+#define NORDER 1
+static unsigned char ORDER[NORDER][KMAX];
+#endif
+#ifndef ORDLO
+#define ORDLO 0
+#define ORDHI NORDER
+#endif
+
+// the wrapper symbol / unique name of a remap are formed from _hash IMMEDIATELY after its own hash_function_signature call
+// (InterfaceMaker::make_function_remap: _unique_name = prefix + library_hash_name + _hash, _wrapper_name likewise) and
+// are never recomputed when a LATER collision extends _hash: the emitted names are these snapshots, not the final _hash
+static char g_name[KMAX][12];
+static unsigned g_namelen[KMAX];
+static void __attribute__((noinline)) take_name(int s, const std::string &h) {
+  size_t n = h.size();
+  const char *p = h.data();
+  g_namelen[s] = (unsigned)n;
+  for (size_t i = 0; i < 10; i++) g_name[s][i] = i < n ? p[i] : 0;
+}
+static bool __attribute__((noinline)) name_eq(int a, int b) {
+  if (g_namelen[a] != g_namelen[b]) return false;
+  bool eq = true;
+  for (unsigned i = 0; i < 10; i++) if (i < g_namelen[a] && g_name[a][i] != g_name[b][i]) eq = false;
+  return eq;
+}
+
+static void __attribute__((noinline)) scenario(int p1, int p2, int ord) {
   for (int s = 0; s < KMAX; s++)
     for (int c = 0; c < 4; c++) {
       g_tab[0][s][c] = c == 3 ? ALPHA[g_pat[p1][s]] : 'a';
@@ -104,8 +140,17 @@ static void __attribute__((noinline)) scenario(int p1, int p2) {
     r[s] = x;
   }
   int calls0 = g_calls;
-  for (int s = 0; s < KMAX; s++) im->hash_function_signature(r[s]);
+  for (int i = 0; i < KMAX; i++) {
+    int s = ORDER[ord][i];
+    im->hash_function_signature(r[s]);
+    take_name(s, r[s]->_hash);
+    ASSERT(g_namelen[s] >= 4 && g_namelen[s] <= 9, "C03 wrapper name suffix is 4, 8 or 9 characters long");
+  }
   ASSERT(g_calls - calls0 >= KMAX, "C03 every remap is hashed");
+  // the names actually emitted (wrapper symbol = wrapper prefix + library hash + snapshot, unique name likewise)
+  for (int s = 0; s < KMAX; s++)
+    for (int t = s + 1; t < KMAX; t++)
+      ASSERT(!name_eq(s, t), "C03 wrapper symbols / unique names of distinct signatures are pairwise distinct");
 
   for (int s = 0; s < KMAX; s++) {
     size_t n = r[s]->_hash.size();
@@ -127,6 +172,10 @@ extern "C" void harness_c03_hash_signature() {
   ASSERT(g_npat == (KMAX == 2 ? 2 : KMAX == 3 ? 5 : 15), "C03 harness enumerates every set partition");
   // one catalogue entry per first-level partition P1 (symbolic execution slows down superlinearly with the number of
   // heap objects alive in one query), all second-level partitions inside
-  for (int p2 = P2LO; p2 < g_npat && p2 < P2HI; p2++) scenario(P1, p2);
+#if KMAX != 3
+  for (int i = 0; i < KMAX; i++) ORDER[0][i] = (unsigned char)i;
+#endif
+  for (int ord = ORDLO; ord < ORDHI && ord < NORDER; ord++)
+    for (int p2 = P2LO; p2 < g_npat && p2 < P2HI; p2++) scenario(P1, p2, ord);
   WITNESS();
 }
